@@ -394,7 +394,9 @@ def rule_expand(ctx):
                     key = norm(subst(flow.resolve(dv.keys[0], at=c, depth=2, stop=("groups", "pairs")), env, c)).replace('"', "'")
                     val = norm(subst(flow.resolve(dv.values[0], at=c, depth=2, stop=("groups", "pairs")), env, c))
                     st = enclosing_stmt(c)
-                    cond = [norm(a.test) for a in _ancestors_if(st)]
+                    # enclosing ifs and guard clauses in front of the selection (`if <nothing repeats>: continue`)
+                    from ..flow import guard_chain
+                    cond = [("%s" if pol_ else "not (%s)") % norm(t_) for t_, pol_ in guard_chain(st, implicit=True)]
                     sels[key] = (val, cond, c)
     for k in (0, 1):
         key = "groups[%d] + '/collocation'" % k
